@@ -31,7 +31,8 @@ SPEC = dict(
              'The cryptographic primitives (X25519, Ed25519<->Curve25519 maps, AES-256-CTR, SHA-256, Ed25519 sign/verify, HMAC-SHA512, PBKDF2) are '
              'NOT verified: they are parameters and their algebraic laws (DH commutativity, CTR involution + length, signature correctness, digest '
              'lengths) are hypotheses, shown satisfiable by toy primitives (CTR involution is alternatively derived from "output = input xor key stream"). Rejection of altered message/key/signature (unforgeability) is only '
-             'tested. The real library is exercised with both real peers and against an independent libsodium/pycryptodome transcription.'
+             'tested. The real library is exercised with both real peers and against an independent libsodium/pycryptodome transcription (plaintexts of 0..4096 bytes '
+             'and of every length around the sizes the current source mentions - L-1, L, L+1, 2L, 3L, L +- block, the multiples of each block size above L - up to 4 MiB).'
              ' SOURCE TIE: the glue code itself is REGENERATED from the Python source on every run (Generated/AdnlSrc.lean): Client / Server / '
              'AdnlChannel.__init__ (key conversions, shared key, the three-way id comparison, [::-1]), get_key_aes_id, '
              'create_aes_ctr_sipher_from_key_n_data + create_aes_ctr_cipher (slice bounds, 32-byte guard, AES.new argument check), encrypt / decrypt '
@@ -67,7 +68,7 @@ SPEC = dict(
     lean_targets=['TonVerif.Proofs.SrcAdnl', 'TonVerif.Proofs.SrcAdnlLoop'],
     design_ref='DESIGN.md §6 C20',
     rule='channel case = (seed a, seed b, id variant: natural/swapped/equal/prefix/empty, plaintext length 0..4096 incl. block boundaries), both directions; '
-         'self channel a=b; cipher-guard case = (key length, data length) around 16/20/32; sign case = (seed, message, one alteration of message/key/signature); '
+         'plaintext lengths around every int literal of the current ciphers.py / signature.py / keys.py (and the powers of two next to it) up to 4 MiB; self channel a=b; cipher-guard case = (key length, data length) around 16/20/32; sign case = (seed, message, one alteration of message/key/signature); '
          'mnemonic case = one mnemonic_new() output (validated, derived twice, compared with hashlib/libsodium) or one recorded os.urandom stream; '
          'distinct = distinct inputs; non-trivial = plaintext/message non-empty or structural case',
     trusted_base=['Generated/AdnlSrc.lean is regenerated from ciphers.py / signature.py / keys.py by pyprims.py under the declared interface of adnlsrc.py '
